@@ -1,4 +1,5 @@
 from collections import defaultdict
+import operator
 import re
 
 from flatland.util import (
@@ -108,6 +109,25 @@ class Container(Element):
                 validators = getattr(self, self.validates_up, None)
                 return validate_element(self, state, validators)
         return Unevaluated
+
+
+def _replica_value(element):
+    """A plain value that rebuilds *element*'s state when set on a fresh one.
+
+    Like ``element.value``, except that every member of a sequence is kept
+    (a MultiValue's value is its first member only) and that a scalar which
+    holds unadaptable text contributes that text.
+
+    """
+    if hasattr(element, "compose"):
+        pass  # a compound is set as the single value it composes
+    elif isinstance(element, Sequence):
+        return [_replica_value(child) for child in element.children]
+    elif isinstance(element, Mapping):
+        return {key: _replica_value(child) for key, child in element.items()}
+    if element.value is None and element.u:
+        return element.u
+    return element.value
 
 
 class Sequence(Container, list):
@@ -322,14 +342,11 @@ class Sequence(Container, list):
     def __imul__(self, count):
         # list.__imul__ would repeat the very same member objects; repeat
         # their values as fresh members instead.
-        count = int(count.__index__())
+        count = operator.index(count)
         if count <= 0:
             del self[:]
         else:
-            values = [
-                member.value if member.value is not None or not member.u else member.u
-                for member in self
-            ]
+            values = [_replica_value(member) for member in self]
             for _ in range(count - 1):
                 self.extend(values)
         return self
